@@ -6,23 +6,37 @@ CHECK = {
   'level_text': 'Complete enumeration, on the real String code, of all 1,112,063 non-NUL Unicode scalar values (alone, and next to 1/2/3/4-byte neighbours in both orders), '
                 'all pairs/triples over 22 boundary code points, all 16.8 M byte strings of length <= 3 and all strings of length <= 5 (thorough 6) over the 16-byte '
                 'boundary alphabet, every alphabet tail of length <= 3 behind paddings that move the String through inline/heap(20)/heap(n+1)/1 KB layouts, and all pairs of '
-                'code points 1..2099 plus all pairs of short strings over a 28-letter case alphabet for the case-insensitive clause. No sampling. Right level because the '
+                'code points 1..2099 plus all pairs of short strings over a 28-letter case alphabet for the case-insensitive clause; above the case tables every scalar c against '
+                'c+d for the offsets d at which Unicode keeps case pairs, and every Unicode case pair python knows (multi-character images included). Every limit argument n of the four '
+                'raw conversions is made binding (1 <= n < length, output buffers of exactly the contract size for that n) and once larger than the text; the text of a String is '
+                'compared after the const dataw(); code-point iteration runs through the Enumerator and through range-for; a multibyte character between two ASCII runs of 1..16; '
+                'the locale bridge (utf8ToLocal, localToUtf8, String::fromLocal, String::toLocal) is called in the "C" and "C.UTF-8" locales for its safety clause. No sampling. Right level because the '
                 'conversion functions are pure functions of short inputs whose behaviour is decided by the bytes around a lead byte and the terminator.',
   'level_note': 'Trusts g++/ASan, python3 codecs (reference encoder and strict validity are compared with python for every scalar and 135 k short strings on every run), '
                 'C-locale toupper/tolower. U+0000 cannot be carried by the NUL-terminated API and is excluded. The "random longer strings" of the quantifier are replaced by a '
                 'deterministic family (e). Output-buffer contracts are the ones asl itself relies on: 4n+1 bytes (utf32toUtf8, utf16toUtf8), n+1 ints (utf8toUtf32), '
                 'strlen+1 units for n=strlen and min(strlen,2n)+1 for smaller n (utf8toUtf16); n=0 (asl: "no limit") is not exercised on non-empty input. '
+                'Locale bridge: in scope for the safety clause only ("every conversion ... terminates and stays within its input and output buffers", public conversion functions of the anchor '
+                'files built on the UTF-8 <-> UTF-16 functions); demanded are termination, ASan-cleanliness and a result String terminated inside its own buffer; the values belong to the '
+                'platform codec (glibc: C locale rejects bytes >= 80, C.UTF-8 delivers UCS-4 in wchar_t) and are only counted. The offsets of family (j) and the python case pairs are inputs, '
+                'the oracle there is asl\'s own toLowerCase as the statement says. '
                 'Termination: iteration has a step budget; the other calls run under a 300 s CPU watchdog per work item.',
   'rule': 'complete enumeration: (a) every scalar value 1..10FFFF; (b) BND^2, BND^3 (thorough ^4) and every scalar x {7F,80,800,10000} (thorough: x all 22 boundary code points) in both orders; '
           '(c) every byte string of length 0..3; (d) alphabet^4..5 (thorough ..6); (e) alphabet^<=3 tails behind paddings; (f) code-point pairs 1..2099 and case-alphabet string pairs; '
-          '(g) UTF-16 unit / int arrays over boundary alphabets. distinct_nontrivial = distinct inputs (byte strings, pairs, unit arrays); the same bytes replayed at another '
+          '(g) UTF-16 unit / int arrays over boundary alphabets, utf16toUtf8 also with every limit 1 <= n < length; (h) one or two boundary code points around paddings; (i) x^p + c + x^q, c in BND, p, q in 1..16; '
+          '(j) every scalar c against c+d, d in the case-pair offsets, and python\'s Unicode case pairs; (k) locale bridge in "C" and "C.UTF-8": byte strings, every scalar alone and padded to 19, padded tails, shapes of (i). '
+          'In the raw conversions every n in 1..L-1 (L <= 8) for utf8toUtf32 / utf8toUtf16 / utf16toUtf8 / utf32toUtf8 and n = L+7. distinct_nontrivial = distinct inputs (byte strings, pairs, unit arrays); the same bytes replayed at another '
           'offset (left-padded to 19/15/16) count as evaluations only',
   'parts': [{'bin': 'c08_utf', 'flavour': 'asan', 'deadline': {'quick': 900, 'thorough': 3000}}],
   'bounds': {'quick': 'all scalars; BND^2..3; scalars x 4 neighbours x 2 orders; all bytes^<=3 at offset 0 and padded to 19; alphabet^4..5; tails^<=3 x pads 4..24 (+25..44, 1017..1024 for tails^<=2); '
-                      'nocase: 2099^2 code-point pairs, 812^2 string pairs; UTF-16 units^<=4, ints^<=3',
+                      'nocase: 2099^2 code-point pairs, 812^2 string pairs, every scalar x offsets {1,32,40,48,80,10000h}, 3141 python case pairs (unicodedata 14.0); UTF-16 units^<=4 (limits 1..n-1), ints^<=3; '
+                      'x^p c x^q for 22 c, p,q 1..16; limits n: 1..L-1 for all four conversions on every raw case with L <= 8, n = L+7 except on family (c) length 3; '
+                      'range-for on the offset-0 instance of every byte string; locale bridge x {C, C.UTF-8}: bytes^<=2, alphabet^3, all scalars padded to 19, tails^<=2 x pads 4..44, 1017..1024, 5632 shapes of (i)',
              'thorough': 'all scalars; BND^2..4; scalars x 22 neighbours x 2 orders; all bytes^<=3 at offset 0 and padded to 19, 15, 16; alphabet^4..6; tails^<=3 x pads 4..44, 1017..1024; '
-                         'nocase: 2099^2 code-point pairs, 812 x 22764 string pairs; UTF-16 units^<=5, ints^<=4'},
-  'assumptions': ['LC_ALL=C; wchar_t is 32 bits and carries UTF-16 code units (as asl documents)', 'reference = plain C++ UTF-8/16 encoder and strict decoder, compared with python3 codecs for every scalar value on every run',
+                         'nocase: 2099^2 code-point pairs, 812 x 22764 string pairs, every scalar x 14 offsets {1,8,16,26,32,34,40,48,64,80,BC0h,1C60h,97D0h,10000h}, 3141 python case pairs (unicodedata 14.0); UTF-16 units^<=5 (limits 1..n-1), ints^<=4; '
+                         'x^p c x^q for 22 c, p,q 1..16; limits n: 1..L-1 and L+7 for all four conversions on every raw case with L <= 8; '
+                         'locale bridge x {C, C.UTF-8}: all bytes^<=3, all scalars alone and padded to 19, tails^<=2 x pads 4..44, 1017..1024, 5632 shapes of (i)'},
+  'assumptions': ['the process runs in the "C" locale (no setlocale) except inside family (k), which switches LC_CTYPE between "C" and "C.UTF-8" (glibc >= 2.35 has it built in; where it is missing that half of (k) is skipped, locale_C_UTF8_available=false, and the vacuity guard reports its witnesses as zero); wchar_t is 32 bits and carries UTF-16 code units (as asl documents)', 'reference = plain C++ UTF-8/16 encoder and strict decoder, compared with python3 codecs for every scalar value on every run',
                   'g++ -O2 + AddressSanitizer; String slack after the NUL poisoned (vfx::Flush), raw inputs/outputs in malloc blocks of exactly the contract size',
                   'U+0000 excluded (NUL-terminated API)', 'the coincidence clause equalsNocase <=> equal lower-cased forms is demanded on well-formed text only'],
  }
